@@ -148,28 +148,42 @@ def _o4_probability(ctx, rep):
             if len(body) == 1 and isinstance(body[0], ast.Return) and body[0].value is not None:
                 helpers.setdefault(n.name, []).append((n, body[0].value))
     n_forms = 0
+    names_px = {}
     for lp in loops:
         lv = unparse(lp.target)
-        defs = {unparse(s.targets[0]): s.value for s in lp.body if isinstance(s, ast.Assign)}
+        alldefs = {}
+        for s in ast.walk(lp):
+            if isinstance(s, ast.Assign) and len(s.targets) == 1 and isinstance(s.targets[0], ast.Name):
+                alldefs.setdefault(s.targets[0].id, []).append(s.value)
+        defs = {k: v[0] for k, v in alldefs.items()}
         # the unnormalised post-state: the local defined as <loop var> @ <state>.vec
-        mx_name = next((k for k, v in defs.items() if unparse(v) == "%s @ %s.vec" % (lv, b)), None)
+        mx_name = next((k for k, v in defs.items() if unparse(v) == "%s @ %s.vec" % (lv, b) and len(alldefs[k]) == 1), None)
         if mx_name is None:
             cand = {k: unparse(v) for k, v in defs.items() if "@" in unparse(v)}
-            rep.violation("O4", h, lp, "unnormalised post-state is %s, expected %s @ %s.vec" % (cand or None, lv, b), node=lp)
+            if cand and all(len(alldefs[k]) == 1 for k in cand):
+                rep.violation("O4", h, lp, "unnormalised post-state is %s, expected %s @ %s.vec" % (cand or None, lv, b), node=lp)
+            else:
+                rep.undecided("O4", h, lp, "no unnormalised post-state %s @ %s.vec found in the loop" % (lv, b))
             continue
         # the probability: the local that is later compared with eps_zero / appended next to the post-state
-        px_name = next((k for k, v in defs.items() if k != mx_name and any(isinstance(x, ast.Name) and x.id == mx_name for x in ast.walk(v))), None)
+        px_name = next((k for k, vs in alldefs.items() if k != mx_name
+                        and any(isinstance(x, ast.Name) and x.id == mx_name for v in vs for x in ast.walk(v))), None)
         if px_name is None:
             rep.undecided("O4", h, lp, "no probability computed from %s" % mx_name)
             continue
-        px = defs[px_name]
-        forms = [px]
-        if isinstance(px, ast.Call) and isinstance(px.func, ast.Name) and px.func.id in helpers and len(px.args) == 1 and not px.keywords:
-            forms = []
-            for fn, ret in helpers[px.func.id]:
-                prm = [x.arg for x in fn.args.args]
-                if len(prm) == 1:
-                    forms.append(subst(ret, {prm[0]: px.args[0]}))
+        names_px[id(lp)] = (mx_name, px_name)
+        forms = []
+        for px in alldefs[px_name]:
+            if isinstance(px, ast.Constant) and px.value in (0, 0.0):
+                continue        # the truncation of a negligible probability
+            if isinstance(px, ast.Call) and isinstance(px.func, ast.Name) and px.func.id in helpers and len(px.args) == 1 and not px.keywords:
+                for fn, ret in helpers[px.func.id]:
+                    prm = [x.arg for x in fn.args.args]
+                    if len(prm) == 1:
+                        forms.append(subst(ret, {prm[0]: px.args[0]}))
+            else:
+                forms.append(px)
+        px = alldefs[px_name][0]
         for e in forms:
             n_forms += 1
             t = unparse(e)
@@ -190,14 +204,43 @@ def _o4_probability(ctx, rep):
     if n_forms == 0:
         rep.undecided("O4", h, "probability", "no probability expression recognised")
     # post state = Mx_rho / p_x with the same pair
-    z = [n for n in own_nodes(h.node) if isinstance(n, ast.For) and unparse(n.iter) == "zip(Mx_rhos, ps)"]
-    ok = False
-    if len(z) == 1 and unparse(z[0].target) == "(Mx_rho, p_x)":
-        ok = any(isinstance(s, ast.Assign) and unparse(s.targets[0]) == "rho_x" and unparse(s.value) == "Mx_rho / p_x" for s in ast.walk(z[0]))
-        apps = [unparse(c) for n in own_nodes(h.node) for c in [n] if isinstance(n, ast.Call) and isinstance(n.func, ast.Attribute) and n.func.attr == "append"]
-        ok = ok and "Mx_rhos.append(Mx_rho)" in apps and "ps.append(p_x)" in apps
-    rep.check(ok, "O4", h, "post-measurement state", "rho_x = (M rho)_x / p_x with the probability of the same outcome",
-              "the post-measurement state is not the unnormalised state divided by its own probability", node=h.node)
+    if not names_px:
+        return
+    nodes = list(own_nodes(h.node))
+    lists_m, lists_p = set(), set()
+    for mx_name, px_name in names_px.values():
+        for c in nodes:
+            if isinstance(c, ast.Call) and isinstance(c.func, ast.Attribute) and c.func.attr == "append" and isinstance(c.func.value, ast.Name) \
+                    and len(c.args) == 1 and isinstance(c.args[0], ast.Name):
+                if c.args[0].id == mx_name:
+                    lists_m.add(c.func.value.id)
+                if c.args[0].id == px_name:
+                    lists_p.add(c.func.value.id)
+    pairs = []      # (node, name bound to an element of the post-state list, name bound to the matching probability)
+    for n in nodes:
+        if isinstance(n, (ast.For, ast.comprehension)) and isinstance(n.iter, ast.Call) and dotted(n.iter.func) == "zip" and len(n.iter.args) == 2 \
+                and all(isinstance(x, ast.Name) for x in n.iter.args) and isinstance(n.target, ast.Tuple) and len(n.target.elts) == 2 \
+                and all(isinstance(x, ast.Name) for x in n.target.elts):
+            i0, i1 = n.iter.args[0].id, n.iter.args[1].id
+            t0, t1 = n.target.elts[0].id, n.target.elts[1].id
+            if i0 in lists_m and i1 in lists_p:
+                pairs.append((n, t0, t1))
+            elif i1 in lists_m and i0 in lists_p:
+                pairs.append((n, t1, t0))
+    if len(lists_m) != 1 or len(lists_p) != 1 or not pairs:
+        rep.undecided("O4", h, "post-measurement state", "no loop over zip(<unnormalised post-states>, <probabilities>) found (lists %s / %s)"
+                      % (sorted(lists_m), sorted(lists_p)))
+        return
+    for n, tm, tp in pairs:
+        scope = n if isinstance(n, ast.For) else getattr(n, "_parent", n)
+        divs = [x for x in ast.walk(scope) if isinstance(x, ast.BinOp) and isinstance(x.op, ast.Div) and isinstance(x.left, ast.Name) and x.left.id == tm]
+        if not divs:
+            rep.undecided("O4", h, "post-measurement state", "the unnormalised post-state %s is not divided in the loop over the pairs" % tm)
+            continue
+        ok = all(isinstance(x.right, ast.Name) and x.right.id == tp for x in divs)
+        rep.check(ok, "O4", h, "post-measurement state", "rho_x = (M rho)_x / p_x with the probability of the same outcome",
+                  "the post-measurement state is not the unnormalised state divided by its own probability (%s)" % ", ".join(unparse(x) for x in divs),
+                  node=divs[0])
 
 
 
